@@ -107,7 +107,7 @@ func genMatchCases(r *Rng, n int) {
 func genUpdateCases(r *Rng, n int) {
 	for i := 0; i < n; i++ {
 		cr := r.Fork()
-		o := ValOpts{ExactNums: cr.Chance(70), AllowEmpty: cr.Chance(20), MaxDepth: 2}
+		o := ValOpts{ExactNums: cr.Chance(70), AllowEmpty: cr.Chance(20), MaxDepth: 2 + cr.Intn(2)}
 		item := genItem(cr, o)
 		g := &UpdGen{r: cr, item: item, o: o}
 		acts := g.Gen()
